@@ -12,14 +12,14 @@ if os.path.exists(RES):
 det = json.load(open(DET)) if os.path.exists(DET) else {}
 os.makedirs('/verif/seeded', exist_ok=True)
 for d in sorted(os.listdir('/tmp/seed')):
-    m = re.match(r'(C\d+)-out$', d)
+    m = re.match(r'(C\d+)(b?)-out$', d)
     if not m:
         continue
     for sub in sorted(os.listdir(os.path.join('/tmp/seed', d))):
         src = os.path.join('/tmp/seed', d, sub)
         if not os.path.exists(os.path.join(src, 'patch.diff')):
             continue
-        sid = '%s_%s' % (m.group(1), sub)
+        sid = '%s%s_%s' % (m.group(1), m.group(2), sub)
         c = conf.get(sid)
         if not c or 'APPLY-FAILED' in c:
             continue
